@@ -88,7 +88,20 @@ pub fn recover(signature: [u8; 64], message: &Message) -> Result<PublicKey, Erro
     let (sig, recid) = decode_signature(signature);
     let sig =
         k256::ecdsa::Signature::from_slice(&sig).map_err(|_| Error::InvalidSignature)?;
-    let vk = VerifyingKey::recover_from_prehash(&**message, &sig, recid.into())
+
+    // `recover_from_prehash` rejects `s` in the upper half of the group order, while
+    // the `secp256k1` backend recovers from any `0 < s < n`. `(r, s, v)` and
+    // `(r, n - s, !v)` recover the same key, so recover from the normalized form.
+    let recid: RecoveryId = recid.into();
+    let (sig, recid) = match sig.normalize_s() {
+        Some(normalized) => (
+            normalized,
+            RecoveryId::new(!recid.is_y_odd(), recid.is_x_reduced()),
+        ),
+        None => (sig, recid),
+    };
+
+    let vk = VerifyingKey::recover_from_prehash(&**message, &sig, recid)
         .map_err(|_| Error::InvalidSignature)?;
     Ok(PublicKey::from(&vk))
 }
